@@ -86,3 +86,23 @@ VARIANTS += [
          [(SL, "        if index is None:\n            index = self._last_index\n", "        index = index or self._last_index\n")],
          ("C16.7", "compute_col:or-default:index"), P),
 ]
+
+RG = "src/jaqalpaq/core/register.py"
+CBD = "src/jaqalpaq/core/circuitbuilder.py"
+VARIANTS += [
+    # reverting fix 7af6bac
+    fire("c16-resolve-size-zero-step-unchecked",
+         [(RG, '        if step == 0:\n            raise JaqalError("Slice step cannot be zero.")\n        return len(range(start, stop, step))', "        return len(range(start, stop, step))")],
+         ("C16.12", "Register.resolve_size:range-step"), ("C16",)),
+    # reverting fix 8a1e340
+    fire("c16-build-map-size-of-any-entity",
+         [(CBD, '                if not isinstance(src, Register):\n                    raise JaqalError(\n                        f"Cannot slice {src_name}: it is not a register"\n                    )\n                stop = src.size', "                stop = src.size")],
+         ("C16.14", "Builder.build_map:context-entity:src.size"), ("C16",)),
+    fire("c16-as-integer-handler-narrowed",
+         [(CBD, "    except Exception:\n        # The value wasn't even numeric.", "    except (TypeError, ValueError, JaqalError):\n        # The value wasn't even numeric.")],
+         ("C16.13", "as_integer:conversion-handler"), ("C16",)),
+    silent("c16-as-integer-handler-explicit-complete",
+           [(CBD, "    except Exception:\n        # The value wasn't even numeric.", "    except (TypeError, ValueError, OverflowError, JaqalError):\n        # The value wasn't even numeric.")], ("C16",)),
+    silent("c16-range-step-guard-other-spelling",
+           [(RG, '        if step == 0:\n            raise JaqalError("Slice step cannot be zero.")\n        return len(range(start, stop, step))', '        if 0 == step:\n            raise JaqalError("Slice step cannot be zero.")\n        return len(range(start, stop, step))')], ("C16",)),
+]
